@@ -23,6 +23,24 @@ OFFSETS = [None, 0, 3600, -12600, 86340, -86340]
 OFF_FORMS = ['Z', 'z', 'hh:mm', 'hhmm', 'hh', '-00:00']
 
 
+_PRELUDE = []
+
+
+def prelude():
+    """once per process, before anything else is parsed: the documented parse_tzstr(..., zero_as_utc=False) is asked
+    for every zero spelling - whatever that call leaves behind must not change how isoparse reads a zero offset"""
+    if _PRELUDE:
+        return
+    _PRELUDE.append(1)
+    from dateutil.parser import isoparser
+    p = isoparser()
+    for z in ('Z', 'z', '+00:00', '-00:00', '+0000', '-0000', '+00', '-00'):
+        try:
+            p.parse_tzstr(z, zero_as_utc=False)
+        except Exception:
+            pass
+
+
 def time_forms(t, full=True):
     out = []
     for prec, ext in (('h', True), ('m', True), ('m', False), ('s', True), ('s', False)):
@@ -72,6 +90,7 @@ def check_dt(got, exp_naive, off):
 
 
 def eval_date(case):
+    prelude()
     from dateutil.parser import isoparser, isoparse
     from dateutil import tz
     warnings.simplefilter('ignore')
@@ -153,6 +172,7 @@ def eval_date(case):
 
 def eval_time_entry(t):
     """time-only and offset-only entry points"""
+    prelude()
     from dateutil.parser import isoparser
     from dateutil import tz
     warnings.simplefilter('ignore')
@@ -188,6 +208,7 @@ def eval_time_entry(t):
 
 
 def eval_tz_entry(off):
+    prelude()
     from dateutil.parser import isoparser
     from dateutil import tz
     p = isoparser()
